@@ -293,6 +293,11 @@ def worker(shard, nshards, plan):
                 if idx % nshards != shard:
                     continue
                 errors_and_nodes(sql, dialect, res, record)
+                # the same statement behind characters that a tokenizer may treat specially at the very start of the input (byte
+                # order mark, zero-width and no-break spaces): every offset must still refer to the text that was passed in
+                for lead in ("\ufeff", "\u200b", "\u00a0", "\ufeff\n"):
+                    one(lead + sql, dialect, "lead", res, record)
+                    errors_and_nodes(lead + sql, dialect, res, record)
         elif kind == "reuse":
             # positions reported by a Tokenizer object that has already tokenized another input (every ordered pair)
             firsts = ["SELECT 1", "SELECT 1\n", "SELECT 1 -- c\n", "SELECT 1\r", "SELECT 1\r\n", "SELECT 'a\nb'", "SELECT /* x\ny */ 1", "\n\n", "SELECT 'open", "/* open",
